@@ -7,7 +7,7 @@ use harness::rep::*;
 use serde_json::json;
 
 macro_rules! quat_checks {
-    ($rep:ident, $Q:ident, $S:ident, $V3:ident, $eps:expr, [$(($V3x:ident, $mulv:ident)),*]) => {{
+    ($rep:ident, $Q:ident, $S:ident, $V3:ident, $V4:ident, $eps:expr, [$(($V3x:ident, $mulv:ident)),*]) => {{
         let tn = stringify!($Q);
         let eps: f64 = $eps;
         let mk = |q: &[i64; 4]| <$Q>::from_xyzw(q[0] as $S, q[1] as $S, q[2] as $S, q[3] as $S);
@@ -110,9 +110,7 @@ macro_rules! quat_checks {
         });
         // ---- envelope: unit quaternions from ROT, vectors from DIR
         let rot = rot_family(if $rep.thorough() { 1 } else { 0 });
-        let nsub: usize = if $rep.thorough() { 1024 } else { 256 };
-        let step = (rot.len() / nsub).max(1);
-        let sub: Vec<$Q> = rot.iter().step_by(step).map(|q| <$Q>::from_xyzw(q[0] as $S, q[1] as $S, q[2] as $S, q[3] as $S)).collect();
+        let sub: Vec<$Q> = rot_subset(if $rep.thorough() { 1 } else { 0 }, if $rep.thorough() { 1024 } else { 128 }).iter().map(|q| <$Q>::from_xyzw(q[0] as $S, q[1] as $S, q[2] as $S, q[3] as $S)).collect();
         let ns = sub.len() as u64;
         let dirs: Vec<[f64; 3]> = int_dirs(2).into_iter().step_by(5).chain([[1.0, 0.0, 0.0], [0.0, 1e-3, 1e3], [3.5e7, -1.25e-4, 2.0]]).collect();
         let nd = dirs.len() as u64;
@@ -193,6 +191,24 @@ macro_rules! quat_checks {
             if !q.normalize().is_normalized() {
                 acc.fail(&format!("{tn}::is_normalized"), ctx());
             }
+            // "dot, length and normalize act component-wise like the 4-vector operations": the same
+            // bits as the 4-vector of the same components
+            let v4 = <$V4>::from_array(q.to_array());
+            let p = <$Q>::from_xyzw(f[1] as $S, -f[0] as $S, f[3] as $S, f[2] as $S * (0.5 as $S));
+            let p4 = <$V4>::from_array(p.to_array());
+            let pairs: [(&str, Vec<$S>, Vec<$S>); 6] = [
+                ("normalize", q.normalize().to_array().to_vec(), v4.normalize().to_array().to_vec()),
+                ("length", vec![q.length()], vec![v4.length()]),
+                ("length_squared", vec![q.length_squared()], vec![v4.length_squared()]),
+                ("length_recip", vec![q.length_recip()], vec![v4.length_recip()]),
+                ("dot", vec![q.dot(p)], vec![v4.dot(p4)]),
+                ("add,sub", [(q + p).to_array(), (q - p).to_array()].concat(), [(v4 + p4).to_array(), (v4 - p4).to_array()].concat()),
+            ];
+            for (site, g, w) in pairs {
+                if g.iter().zip(w.iter()).any(|(x, y)| x.to_bits() != y.to_bits()) {
+                    acc.fail(&format!("{tn}::{site}(same as the 4-vector)"), format!("{} got={:?} 4-vector gives {:?}", ctx(), g, w));
+                }
+            }
         });
     }};
 }
@@ -201,8 +217,8 @@ fn main() {
     let mut rep = Report::new("C04", "exploration");
     silence_panics();
     rep.rule("exact layer: all 625^2 pairs of integer quaternions {-2..2}^4 (Hamilton product, conjugate, +, -, scalar, dot, length_squared, ==) and all (q, v) in {-2..2}^4 x {-1,0,1}^3 for q*v against the integer polynomial q(v,0)conj(q); non-trivial = both operands have >= 2 non-zero components. envelope layer: all pairs of a ROT sub-family (integer-direction, octahedral, icosahedral, near-0/near-pi, branch-boundary rotations) x direction vectors: q*v vs f64 polynomial and rotation matrix, length, associativity, inverse, -q, within K*eps*|q|^2*|v|");
-    quat_checks!(rep, Quat, f32, Vec3, EPS32, [(Vec3, mul_vec3), (Vec3A, mul_vec3a)]);
-    quat_checks!(rep, DQuat, f64, DVec3, EPS64, [(DVec3, mul_vec3)]);
+    quat_checks!(rep, Quat, f32, Vec3, Vec4, EPS32, [(Vec3, mul_vec3), (Vec3A, mul_vec3a)]);
+    quat_checks!(rep, DQuat, f64, DVec3, DVec4, EPS64, [(DVec3, mul_vec3)]);
     rep.sample(json!({"space": "Quat/exact-int", "a": [1, -2, 0, 2], "b": [-1, 1, 2, -2], "oracle": "integer Hamilton product"}));
     rep.sample(json!({"space": "Quat/rotation laws", "q": "icosahedral group element", "p": "rotation by pi-1e-4 about (1,2,-2)/3", "v": [3.5e7, -1.25e-4, 2.0]}));
     // every operator trait impl of the tree (inventory from the rustdoc JSON): reference, assign and
